@@ -106,6 +106,8 @@ func main() {
 		verbose := fs.Bool("v", false, "print SMT file names")
 		fs.Parse(os.Args[2:])
 		os.Exit(runUnits(repo, verif, fs.Args(), *verbose))
+	case "sweep":
+		os.Exit(runSweep(repo, verif, os.Args[2:]))
 	case "selftest":
 		prop := ""
 		if len(os.Args) > 2 {
